@@ -38,7 +38,7 @@ func runC03(r *R) {
 	w := r.W
 	r.Explain = "Structural necessary conditions of C03 in sdk/go/keepclient: (R1) getOrHead hands out a response body only wrapped in HashCheckingReader{Body, md5.New(), locator[0:32]} (or the empty-block literal under the d41d8…+0 prefix test); (R2) only when size hint and Content-Length agree and at least one is present; " +
 		"(R3) HashCheckingReader.Read turns EOF into BadChecksum on mismatch, WriteTo/Close return nil only when the digest matches, Close drains through the hash first; (R4) BlockCache.Get keeps the errors of Get, ReadFull and Close, never reuses an entry with an error, and ReadAt copies only when err==nil; " +
-		"(R5) cache buffer allocation make(len,cap) is guarded by len<=cap (found F3); (R6) every consumer of KeepClient.Get's reader either passes it on, reads to EOF with the error checked, or checks Close()'s error; collection reads reach Keep only through KeepClient.ReadAt. Retry logic and cache eviction are not decided."
+		"(R5) cache buffer allocation make(len,cap) is guarded by len<=cap (found F3); (R6) every consumer of KeepClient.Get's reader either passes it on, reads to EOF with the error checked, or checks Close()'s error; collection reads reach Keep only through KeepClient.ReadAt. (R8) HashCheckingReader.Read hashes exactly the bytes it delivers, and a collection segment read turns its result into io.EOF only when the verified read returned nil. Retry logic, cache eviction and the arithmetic that bounds a read to its segment are not decided."
 	r.NotDec = []string{"retry/round logic values", "LRU eviction correctness"}
 	r.Assume = []string{"crypto/md5", "net/http delivers Body bytes in order"}
 
